@@ -4,6 +4,8 @@ import (
 	"bytes"
 	"crypto/sha256"
 	"fmt"
+	"github.com/mmcloughlin/avo/buildtags"
+	"github.com/mmcloughlin/avo/gotypes"
 	"github.com/mmcloughlin/avo/operand"
 	"github.com/mmcloughlin/avo/x86"
 	"go/ast"
@@ -103,6 +105,31 @@ func exprString(e ast.Expr) string {
 	return "?"
 }
 
+var (
+	c17UseShared                bool
+	c17SharedAsm, c17SharedStub printer.Printer
+)
+
+// failedGenerations: what else may have happened in the process before a generation: files that are rightly
+// refused by the printers the generator keeps (a constraint that cannot be formatted, a function name that is
+// not an identifier)
+func failedGenerations() {
+	defer func() { recover() }()
+	if c17SharedAsm == nil {
+		return
+	}
+	bad := ir.NewFile()
+	bad.Constraints = buildtags.Constraints{{{"amd64\npurego"}}}
+	fn := ir.NewFunction("sum-pairs")
+	fn.SetSignature(gotypes.NewSignatureVoid())
+	fn.AddInstruction(&ir.Instruction{Opcode: "RET", IsTerminal: true})
+	bad.AddSection(fn)
+	c17SharedAsm.Print(bad)
+	c17SharedStub.Print(bad)
+	bad.Constraints = nil
+	c17SharedStub.Print(bad)
+}
+
 func buildOutputs(p *Prog) (string, error) {
 	fn := p.Function()
 	f := ir.NewFile()
@@ -111,11 +138,18 @@ func buildOutputs(p *Prog) (string, error) {
 		return "ERR:" + err.Error(), nil
 	}
 	cfg := printer.Config{Name: "avo", Pkg: "p"}
-	a, err := printer.NewGoAsm(cfg).Print(f)
+	pa, ps := printer.NewGoAsm(cfg), printer.NewStubs(cfg)
+	if c17UseShared { // the printers a long-running generator keeps for all its files
+		if c17SharedAsm == nil {
+			c17SharedAsm, c17SharedStub = pa, ps
+		}
+		pa, ps = c17SharedAsm, c17SharedStub
+	}
+	a, err := pa.Print(f)
 	if err != nil {
 		return "", err
 	}
-	s, err := printer.NewStubs(cfg).Print(f)
+	s, err := ps.Print(f)
 	if err != nil {
 		return "", err
 	}
@@ -325,7 +359,14 @@ func c17(c *Ctx) {
 			if r%2 == 0 {
 				perturb(prng)
 			}
-			if got := safeBuild(p); got != ref[j] {
+			c17UseShared = r%3 == 1
+			if r%6 == 4 {
+				failedGenerations()
+				c17UseShared = true
+			}
+			got := safeBuild(p)
+			c17UseShared = false
+			if got != ref[j] {
 				diffs++
 				o.Plan.GoViolations = append(o.Plan.GoViolations, GoViolation{Key: "determinism:in-process",
 					Desc:   fmt.Sprintf("generation %d of the same program differs from generation 0 (case %d): %s", r, idx, p.Text()),
